@@ -585,6 +585,50 @@ func blsAggCase[K bls.KeyGroup](g blsGroup, k int) {
 			}
 		}
 	}
+	// (c) the repeated message need not be adjacent: (pk, pk', -pk) on
+	// (a, b, a) with pk' having signed b - the two pairings on a cancel -
+	// and every other position of the repeated pair among three and four
+	// entries
+	if np := ptNeg(victim, g.pkG1); np != nil {
+		other := pkbs[1]
+		sigB := bls.Sign(sks[1], []byte("b: signed by the second key"))
+		a, b := []byte("a: never signed"), []byte("b: signed by the second key")
+		layouts := []struct {
+			name string
+			keys [][]byte
+			ms   [][]byte
+		}{
+			{"pk,other,-pk", [][]byte{victim, other, np}, [][]byte{a, b, a}},
+			{"other,pk,-pk", [][]byte{other, victim, np}, [][]byte{b, a, a}},
+			{"pk,-pk,other", [][]byte{victim, np, other}, [][]byte{a, a, b}},
+		}
+		for _, l := range layouts {
+			var ps []*bls.PublicKey[K]
+			bad := false
+			for _, e := range l.keys {
+				pk := new(bls.PublicKey[K])
+				if pk.UnmarshalBinary(e) != nil {
+					bad = true
+				}
+				ps = append(ps, pk)
+			}
+			if bad {
+				continue
+			}
+			var ok bool
+			p := lib.Try("VerifyAggregate:"+g.name+":duplicate-messages", sigB, func() { ok = bls.VerifyAggregate(ps, l.ms, sigB) })
+			lib.Eval()
+			lib.Count("altered")
+			lib.Count("alt:agg-duplicate-messages")
+			lib.Count("alt:agg-duplicate-messages-not-adjacent")
+			if p == nil && ok {
+				d := dupDetail("cancelling-keys-around-a-genuine-signature:"+l.name, l.keys, a, sigB)
+				lib.Violation("C02:accept-degenerate:"+g.name+":duplicate-messages", monBLS, d)
+			} else if p == nil {
+				lib.Count("rejected")
+			}
+		}
+	}
 	// honest duplicates (two signers, same message): observed only
 	{
 		s0, s1 := bls.Sign(sks[0], m), bls.Sign(sks[1], m)
